@@ -5,11 +5,12 @@
 import CimbaModel.Sim.Basic
 import CimbaModel.Sim.S3Hold
 import CimbaModel.Sim.S3PInvCor
+import CimbaModel.Sim.S3All
 
 namespace CimbaModel.Props.C04
 open CimbaModel CimbaModel.Sim CimbaModel.Event CimbaModel.Generated CimbaModel.KPQ
 open CimbaModel.Sim.S3
-open CimbaModel.HashHeap (HTag)
+open CimbaModel.HashHeap (HTag HH WF abs init_spec)
 
 /-- a timer (and hence a hold, which is a timer with the success code) armed for `d ≥ 0` is a pending event at
     exactly now + d, addressed to the process and carrying the signal; arming does not move the clock -/
@@ -339,5 +340,124 @@ theorem timer_primitives {ex : Pid → Prop} {w : World} (hp : TInv ex w) (p : P
 /- non-vacuity: the initial world satisfies the kernel invariant, so the hypotheses `EvInv w.ev`, `0 ≤ d` are satisfiable,
    and a hold really arms an event there -/
 example : EvInv ({} : World).ev ∧ (holdWorld {} 0 5).ev.pending.length = 1 := ⟨Event.init_inv 0, rfl⟩
+
+/-! ### the whole of NoStaleInv, I_guard and "exactly one cause": `AllInv`
+
+`AllInv w` = `PInvB` ∧ `TInvB` ∧ `GInvB` ∧ `NRInv` ∧ the static side conditions `SideOk`:
+* `GInvB`: every waiting list is a well-formed hashheap; a queued key is a process that awaits exactly that guard and is
+  suspended in a wait on it; a process awaits at most one guard; a pending grant (aRes, SUCCESS) or condition wake-up
+  (aCond) is addressed to a process that still awaits its guard, is suspended in the wait, is already off the waiting
+  list, and is the only one for that process; a pending timer carrying SUCCESS is the timer of the hold its process is
+  suspended in; interrupts, resumes and preemptions never carry SUCCESS; signal words are < 2⁶⁴.
+* `NRInv`: a process that is not running (created / finished) awaits nothing and has no frame.
+* `SideOk` (hypotheses on the scenario, all static): `CondSep` — the guard of a condition is not the guard of any other
+  object; `ScriptsOk` — the documented precondition that timer / resume / interrupt signals are not SUCCESS
+  (`cmb_process_resume(p, 0)` and `interrupt(p, 0, _)` are refused by the model, so 0 itself is allowed in the script).
+It is preserved by `dispatch` for all programs, through every command, every epilogue, `cancel_awaiteds`, process end,
+dropping of resources, signals incl. forwarded ones, priority changes and same-instant coincidences. -/
+
+theorem all_inv_init {w : World} (h : InitOkG w) (hs : SideOk w) : AllInv w := h.all hs
+
+theorem all_inv_dispatch {w w' : World} (h : AllInv w) (hd : dispatch w = some w') : AllInv w' := h.dispatch hd
+
+theorem all_inv_reachable {w w' : World} (hr : Reach w w') (h : AllInv w) : AllInv w' := h.reach hr
+
+theorem all_inv_run (fuel : Nat) (w : World) (h : AllInv w) : AllInv (runAll fuel w) := h.runAll fuel w
+
+/-- the grant / guard part alone (it needs `PInvB` and `NRInv` of the same state) -/
+theorem guard_inv_dispatch {w w' : World} (hg : GInvB w) (hp : PInvB w) (hnr : NRInv w) (hs : SideOk w)
+    (hd : dispatch w = some w') : GInvB w' := hg.dispatch hp hnr hs hd
+
+/-- created and finished processes are inert, in every reachable state, for all programs (no side condition) -/
+theorem non_running_inert {w w' : World} (hr : Reach w w') (h : NRInv w) (p : Pid) (hs : (w'.proc p).status ≠ .running) :
+    (w'.proc p).awaits = [] ∧ (w'.proc p).blocked = none := NRInv.reach hr h p hs
+
+/-- every waiting list is a well-formed hashheap in every reachable state: the hypothesis of the C06 / C08 / C13
+    theorems about signals always holds -/
+theorem guards_wellformed {w w' : World} (hr : Reach w w') (h : AllInv w) : AllGWF w' := (h.reach hr).g.gw
+
+/-- I_guard -/
+theorem guard_inv_means {w : World} (h : AllInv w) :
+    (∀ g k, queued w g k → ∃ p f, k = p + 1 ∧ p < w.procs.size ∧ Await.guard g ∈ (w.proc p).awaits ∧
+      guardAw w p = [.guard g] ∧ (w.proc p).blocked = some f ∧ FrameOn w f g) ∧
+    (∀ p, guardAw w p = [] ∨ ∃ g f, (w.proc p).blocked = some f ∧ FrameOn w f g ∧ guardAw w p = [.guard g]) :=
+  ⟨fun _ _ hq => h.g.queued_means hq, h.g.one_guard⟩
+
+/-- no stale grants / condition wake-ups -/
+theorem no_stale_grant {w : World} (h : AllInv w) {e : HTag} (he : e ∈ w.ev.pending) (hg : isGrant e) :
+    ∃ p g f, e.item.b = p + 1 ∧ (w.proc p).blocked = some f ∧ FrameOn w f g ∧ guardAw w p = [.guard g] ∧
+      ¬ queued w g (p + 1) ∧ (∀ g', ¬ queued w g' (p + 1)) ∧
+      ∀ e' ∈ w.ev.pending, isGrant e' → e'.item.b = p + 1 → e' = e := h.g.grant_owned he hg
+
+theorem no_stale_cond_wakeup {w : World} (h : AllInv w) {e : HTag} (he : e ∈ w.ev.pending) (ha : e.item.a = aCond) :
+    ∃ c, (w.proc (e.item.b - 1)).blocked = some (.condWait c) := h.g.cond_owned he ha
+
+/-- no stale hold wake-ups: SUCCESS from a timer only to the hold that armed it -/
+theorem no_stale_hold_wakeup {w : World} (h : AllInv w) {e : HTag} (he : e ∈ w.ev.pending) (ha : e.item.a = aTime)
+    (hc : e.item.c = 0) : ∃ p, e.item.b = p + 1 ∧ (w.proc p).blocked = some (.hold e.key) := h.g.hold_owned he ha hc
+
+theorem success_never_by_interrupt {w : World} (h : AllInv w) {e : HTag} (he : e ∈ w.ev.pending) (hc : e.item.c = 0) :
+    e.item.a ≠ aIntr ∧ e.item.a ≠ aResume ∧ e.item.a ≠ aPreempt := h.g.nonzero he hc
+
+/-- NoStaleInv, all kinds: the cause of every pending SUCCESS wake-up is the call its process is suspended in -/
+theorem no_stale_inv {w : World} (h : AllInv w) {e : HTag} (he : e ∈ w.ev.pending) (hc : e.item.c = 0)
+    (hk : isWake e.item.a) {p : Pid} (hb : e.item.b = p + 1) : Cause w e p := h.success_cause he hc hk hb
+
+/-- "for exactly one cause": at most one SUCCESS wake-up is pending for any process -/
+theorem one_cause {w : World} (h : AllInv w) {e1 e2 : HTag} (h1 : e1 ∈ w.ev.pending) (h2 : e2 ∈ w.ev.pending)
+    (hc1 : e1.item.c = 0) (hc2 : e2.item.c = 0) (hk1 : isWake e1.item.a) (hk2 : isWake e2.item.a) {p : Pid}
+    (hb1 : e1.item.b = p + 1) (hb2 : e2.item.b = p + 1) : e1 = e2 := h.one_success_wakeup h1 h2 hc1 hc2 hk1 hk2 hb1 hb2
+
+/- non-vacuity: a world with two processes (one with a program that holds and arms a timer), a guard with an empty
+   well-formed waiting list, a condition on that guard and a pending start event satisfies `InitOkG` and `SideOk`,
+   hence `AllInv`, and so does every state of its run -/
+example : ∃ w : World, InitOkG w ∧ SideOk w ∧ w.ev.pending ≠ [] ∧ w.procs.size = 2 ∧ w.guards.size = 1 ∧
+    (w.proc 0).script.size = 2 ∧ ∀ fuel, AllInv (runAll fuel w) := by
+  obtain ⟨s0, _, hwf0, habs0, _⟩ := init_spec (lt := guard_queue_check) 3 (by decide) (by decide)
+  let w0 : World := { procs := #[{ script := #[(.hold 1, "hold"), (.timerAdd 0 1 5, "timer")] }, {}], guards := #[{ q := s0 }], conds := #[0] }
+  have hproc : ∀ p, (w0.proc p).awaits = [] ∧ (w0.proc p).waiters = [] ∧ (w0.proc p).blocked = none := by
+    intro p; unfold World.proc
+    rcases p with _ | _ | p <;> exact ⟨rfl, rfl, rfl⟩
+  have hI : InitOkG (pushEv w0 aStart 1 0 0 0) ∧ SideOk (pushEv w0 aStart 1 0 0 0) := by
+    refine ⟨⟨⟨?_, fun p => (hproc p).1, fun p => (hproc p).2.1, rfl, ?_, ?_⟩, ?_, (by show 2 < 2 ^ 31; decide), ?_,
+      fun p => (hproc p).2.2, ?_⟩, ⟨?_, ?_⟩⟩
+    · exact pushEv_evinv (w := w0) _ _ _ _ _ (Int.le_refl 0) (Event.init_inv 0)
+    · intro e he
+      simp only [pushEv_pending, List.mem_cons] at he
+      rcases he with rfl | he
+      · show aStart ≠ aProc ∧ aStart ≠ aEvent; decide
+      · cases he
+    · intro e he
+      simp only [pushEv_pending, List.mem_cons] at he
+      rcases he with rfl | he
+      · show aStart ≠ aTime; decide
+      · cases he
+    · intro g gd hg
+      rcases g with _ | g
+      · cases hg; exact hwf0
+      · cases hg
+    · intro g k ⟨gd, hg, hk⟩
+      rcases g with _ | g
+      · cases hg; change k ∈ keys (abs s0) at hk; rw [habs0] at hk; cases hk
+      · cases hg
+    · intro e he
+      simp only [pushEv_pending, List.mem_cons] at he
+      rcases he with rfl | he
+      · exact harmless_mkEv (by decide)
+      · cases he
+    · intro c g f hc hon
+      rcases c with _ | c
+      · cases hc
+        cases f <;> first | exact ⟨_, rfl⟩ | (simp [FrameOn, pushEv, w0] at hon)
+      · cases hc
+    · intro p i c t hs
+      rcases p with _ | _ | p
+      · rcases i with _ | _ | i
+        · cases hs; trivial
+        · cases hs; show encSig 5 ≠ 0; decide
+        · cases hs
+      · cases hs
+      · cases hs
+  exact ⟨pushEv w0 aStart 1 0 0 0, hI.1, hI.2, by simp, rfl, rfl, rfl, fun fuel => (hI.1.all hI.2).runAll fuel _⟩
 
 end CimbaModel.Props.C04
